@@ -30,7 +30,7 @@ def script_of(h):
         elif o == "wait":
             ops.append("wait %d" % s["n"])
         elif o == "qcreate":
-            ops.append("qcreate %d %s" % (s["cap"], "drop" if s["drop"] else "refuse"))
+            ops.append("qcreate %d %s" % (s["cap"], s["policy"]))
             hasq = True
         elif o == "enq":
             ops.append("enq " + s["m"])
@@ -190,6 +190,8 @@ def run(tier, work):
             problems.append("merged-or-duplicated")
         if res["enq_ok"] != res["deq"] or res["fifo_viol"]:
             problems.append("queue")
+        if res["enqb_ok"] != res["deqb"] or res["fifob_viol"]:
+            problems.append("blocking-queue")
         if res["join_fail"]:
             problems.append("join")
         if res["timer_after_stop"]:
